@@ -223,7 +223,12 @@ def rule_proxy_forwards(chk, rid):
         cfg = CFG(fn)
         if m in S.READS or m == "openbin":
             rets = returns_of(fn)
-            chk.ob(rid, f"{px.qual}.{m}", bool(rets) and all(r.value is cs[0] for r in rets) and cfg.falloff not in cfg.reachable(cfg.entry),
+            def is_call(r):
+                v = r.value
+                if isinstance(v, ast.Name):
+                    v = resolve_local(cfg, v, cfg.node_of(r))
+                return v is cs[0]
+            chk.ob(rid, f"{px.qual}.{m}", bool(rets) and all(is_call(r) for r in rets) and cfg.falloff not in cfg.reachable(cfg.entry),
                    "returns the wrapped store's answer unchanged", fn, mod, key=f"ret:{m}")
         else:
             chk.ob(rid, f"{px.qual}.{m}", on_every_path(cfg, cs[0]), "the wrapped store is called on every path", fn, mod, key=f"call:{m}")
